@@ -261,7 +261,7 @@ def run(rep, tier):
         # (c) reverse tracker
         try:
             out = svh.request('revloop', [], text)
-            if len(out) >= 2 and out[0].startswith('FOLD') and out[0][5:] != out[1][7:]:
+            if len(out) >= 2 and out[0].startswith('FOLD') and out[1].startswith('UNROLL ') and out[0][5:] != out[1][7:]:
                 rep.violation('SparseUnsignedRevFrameTracker::undo_loop', 'wrong-result', {'circuit': text},
                               'state after undo_loop differs from undo_loop_by_unrolling', out[1][7:300], out[0][5:300])
         except core.Crash as e:
